@@ -151,6 +151,15 @@ impl<T: From<U>, U> Maybe<T, U> {
     pub fn conv(&mut self) -> Option<T> { self.0.take().map(T::from) }
 }
 
+/// A source type that converts into `Conv<K>` ONLY through a hand-written `Into` impl: `Conv<K>: From<OnlyInto<K>>` does not hold, so
+/// `#[from(forward)]` (documented bound: `FieldTy: From<Source>`, conversion by `From::from`) must NOT accept it. `hops: 0` = no From ran.
+#[derive(Clone, Copy, Debug, PartialEq, Eq)]
+pub struct OnlyInto<const K: u8>(pub u32);
+#[allow(clippy::from_over_into)]
+impl<const K: u8> Into<Conv<K>> for OnlyInto<K> {
+    fn into(self) -> Conv<K> { Conv { src: self.0, hops: 0, via: 9 } }
+}
+
 /// Wrapper for generic fields of `Into` programs (the orphan rule forbids `impl<T> From<S<T>> for T`).
 #[derive(Clone, Copy, Debug, PartialEq, Eq)]
 pub struct Wr<T>(pub T);
@@ -466,7 +475,9 @@ def render_conv(c, tys_of, style):
             if kind == "owned" and style == "bare" and set(c) == {"owned"} and not consider:
                 parts.extend(tys_of(kind, t) for t in tys)
             else:
-                parts.append("%s(%s)" % (kind, ", ".join(tys_of(kind, t) for t in tys)))
+                parts.append("%s(%s%s)" % (kind, ", ".join(tys_of(kind, t) for t in tys), "," if style == "trail" else ""))
+    if style == "trail":   # one attribute per item, every list (inner and outer) ends with a trailing comma
+        return [x + "," for x in parts]
     if style == "split":
         return parts
     return [", ".join(parts)]
@@ -622,6 +633,8 @@ def prog_into(key, shape, tys, skip=None, sattr=None, fattr=None, style="joined"
 def src_spec_ty(ft, spec):
     if spec == "own":
         return ft
+    if spec == "onlyinto":
+        return Ty("OnlyInto<%d>" % ft.k, "OnlyInto::<%d>(kani::any())" % ft.k, ft.k)
     if spec == "seed1t":   # the 1-tuple `(Seed<K>,)` as ONE listed type for ONE field
         return Ty("(Seed<%d>,)" % ft.k, "(Seed::<%d>(kani::any()),)" % ft.k, ft.k)
     return {"seed": SEED, "seed2": SEED2, "conv": CONV}[spec](ft.k)
@@ -646,8 +659,10 @@ def from_checks(d, n, specs, field_expr):
 
 
 class Variant:
-    def __init__(self, name, shape, tys, attr=None, listed=None, witnesses=None, split=False, names=None):
+    def __init__(self, name, shape, tys, attr=None, listed=None, witnesses=None, split=False, names=None, groups=None, absent=None):
         self.name, self.d = name, Def(shape, tys, names=names)
+        self.groups = groups      # for "types": [([index into listed, ..], trailing_comma)] = one `#[from(..)]` attribute per entry
+        self.absent = absent or []  # for "forward": source spec lists the blanket impl must NOT cover (observed via Maybe::conv)
         self.attr = attr          # None | "from" | "skip" | "ignore" | "types" | "forward"
         self.listed = listed or []  # for "types": list of spec lists
         self.witnesses = witnesses or []  # for "forward": spec lists to call the blanket impl with
@@ -661,6 +676,9 @@ class Variant:
         if self.attr == "from":
             return ["#[from]"]
         tys = [tup(src_spec_ty(t, s).rust for t, s in zip(self.d.tys, l)) if self.d.n else "()" for l in self.listed]
+        if self.groups:
+            assert sorted(i for g, _ in self.groups for i in g) == list(range(len(tys)))
+            return ["#[from(%s%s)]" % (", ".join(tys[i] for i in g), "," if trail else "") for g, trail in self.groups]
         if self.split:
             return ["#[from(%s)]" % t for t in tys]
         return ["#[from(%s)]" % ", ".join(tys)]
@@ -728,6 +746,21 @@ def prog_from(key, variants, is_enum, extra_negs=(), gdecl="", guse="", derives=
                          'assert!(post_from_%d(a, &r), "post_from_%d");' % (k, k)],
                         fn="<S as From<%s>>::from" % st))
             k += 1
+    # #[from(forward)]: sources that do not satisfy `FieldTy_i: From<Source_i>` for every field are NOT covered by the blanket impl
+    ab = []
+    for v in variants:
+        for specs in v.absent:
+            stys = [src_spec_ty(t, sp) for t, sp in zip(v.d.tys, specs)]
+            st = tup(t.rust for t in stys)
+            ab.append((st, tup(t.any for t in stys)))
+    if ab:
+        hs.append(H("ob_forward_only_through_from",
+                    "the #[from(forward)] blanket impl is bounded by `FieldTy_i: From<Source_i>`: a source convertible into the field only by a "
+                    "hand-written `Into` impl (OnlyInto<K>, no From) gives NO `S: From<Source>` -- observed as a value via Maybe::conv: " +
+                    ", ".join("S: !From<%s>" % st for st, _ in ab),
+                    ["{ let a: %s = %s; assert!(Maybe::<S%s, %s>::new(a).conv().is_none(), \"no From<%s> for S: the field is not From that source\"); }"
+                     % (st, mk, guse, st, st) for st, mk in ab],
+                    fn="impl-set of #[from(forward)]"))
     # absence: the own-typed tuple of every variant that the docs give no impl, plus caller-supplied ones
     for v, impls in zip(variants, exp):
         own = tup(t.rust for t in v.d.tys) if v.d.n else "()"
@@ -931,6 +964,50 @@ def listed_one_tuple_programs(tier):
     return out
 
 
+def repeated_from_attr_programs(tier):
+    """Repeated `#[from(<types>)]` attributes on one struct / one enum variant are merged: one impl per listed type of EVERY attribute
+    (presence: each impl is called), also when an attribute -- first or later -- ends with a trailing comma (rustfmt's multi-line form)."""
+    out = []
+    I = lambda *ts: [INT(t) for t in ts]
+    C = lambda n, typing="distinct": field_tys(n, typing, CONV)
+    # enum variants, 2 and 3 attributes, tuple and named, no trailing commas
+    out.append(prog_from("e_variants_repeated_types", [
+        Variant("A", "tuple", C(1), "types", [["seed"], ["seed2"]], split=True),
+        Variant("B", "named", C(2, "same"), "types", [["seed", "seed"], ["seed2", "seed"], ["own", "seed2"]], split=True),
+        Variant("C", "tuple", I("u8")), Variant("U", "unit", [])], True, extra_negs=["S: From<Conv<0>>", "S: From<(Conv<0>, Conv<0>)>"]))
+    out.append(prog_from("e_variants_repeated_types_2", [
+        Variant("U", "unit", []),
+        Variant("A", "named", [CONV2(0)], "types", [["seed"], ["conv"]], split=True),
+        Variant("B", "tuple", C(3, "same"), "types", [["seed", "seed", "seed"], ["seed", "seed2", "seed"], ["seed2", "own", "seed2"]],
+                groups=[([0], False), ([1, 2], False)]),
+        Variant("C", "named", I("u16", "u16"))], True, extra_negs=["S: From<Seed2<0>>", "S: From<(u16, u16)>"]))
+    # trailing commas in the first / a later / every attribute
+    out.append(prog_from("f_tuple1_ty_repeated_trailing_later", [
+        Variant("S", "tuple", C(1), "types", [["seed"], ["seed2"], ["own"]], groups=[([0], False), ([1, 2], True)])], False, extra_negs=["S: From<()>"]))
+    out.append(prog_from("f_named2_ty_same_repeated_trailing_each", [
+        Variant("S", "named", C(2, "same"), "types", [["seed", "seed"], ["seed2", "seed"], ["own", "seed2"]],
+                groups=[([0], True), ([1], True), ([2], True)])], False, extra_negs=["S: From<(Conv<0>, Conv<0>)>"]))
+    out.append(prog_from("e_variants_repeated_types_trailing", [
+        Variant("A", "tuple", C(1), "types", [["seed"], ["seed2"], ["own"]], groups=[([0, 1], True), ([2], True)]),
+        Variant("B", "named", C(2, "same"), "types", [["seed", "seed"], ["seed2", "seed"], ["seed", "seed2"]], groups=[([0], False), ([1], False), ([2], True)]),
+        Variant("C", "tuple", I("u8", "u8"))], True, extra_negs=["S: From<(u8, u8)>"]))
+    if tier == "thorough":
+        out.append(prog_from("f_tuple3_ty_repeated_trailing_first_only", [
+            Variant("S", "tuple", C(3), "types", [["seed", "seed", "seed"], ["seed2", "own", "seed"]], groups=[([0], True), ([1], False)])], False))
+        out.append(prog_from("f_tuple1_ty_single_attr_trailing", [
+            Variant("S", "tuple", C(1), "types", [["seed"], ["seed2"]], groups=[([0, 1], True)])], False))
+        out.append(prog_from("f_unit_ty_repeated_trailing", [Variant("S", "unit", [], "types", [[]], groups=[([0], True)])], False))
+    # the same spellings for `#[into(..)]` type lists (struct and field level)
+    S = lambda n, typing="distinct": field_tys(n, typing, SEED)
+    out.append(prog_into("it_named2_ty_same_trailing", "named", S(2, "same"),
+                         sattr={"owned": (False, [["conv", "conv"], ["own", "conv2"]]), "ref": (True, [["tr", "own"]]), "ref_mut": (False, [["own", "tr"], ["tr", "tr"]])},
+                         style="trail"))
+    out.append(prog_into("if_tuple2_field_ty_trailing", "tuple", S(2),
+                         fattr=[{"owned": (True, [["conv"], ["conv2"]]), "ref": (False, [["tr"]])}, {"ref_mut": (True, [["tr"]]), "owned": (False, [["conv"]])}],
+                         style="trail"))
+    return out
+
+
 def enum_fieldless_annotated_programs(tier):
     """Enums in which EVERY explicitly annotated variant is field-less (unit / `V()` / `V {}` x `#[from]` / `#[from(())]` /
     `#[from(forward)]`) next to un-annotated variants WITH fields: the annotation gives `From<()>` for that variant (presence: called)
@@ -1118,13 +1195,14 @@ def from_struct_programs(tier):
                          extra_negs=["S: From<(Seed<0>, Seed<1>)>"]))
     out.append(prog_from("f_tuple3_ty_same", [V("tuple", C(3, "same"), "types", [["seed", "seed", "seed"], ["seed", "seed2", "seed"]])], False))
     out.append(prog_from("f_tuple1_chain", [V("tuple", [CONV2(0)], "types", [["seed"], ["conv"]])], False, extra_negs=["S: From<Conv2<0>>", "S: From<Seed2<0>>"]))
-    out.append(prog_from("f_tuple1_forward", [V("tuple", C(1), "forward", witnesses=[["seed"], ["seed2"], ["own"]])], False,
+    out.append(prog_from("f_tuple1_forward", [V("tuple", C(1), "forward", witnesses=[["seed"], ["seed2"], ["own"]], absent=[["onlyinto"]])], False,
                          extra_negs=["S: From<u32>", "S: From<Seed<1>>", "S: From<()>"]))
     out.append(prog_from("f_named3_forward_same", [V("named", C(3, "same"), "forward",
-                                                     witnesses=[["seed", "seed", "seed"], ["seed2", "seed", "own"], ["seed", "seed2", "seed2"]])], False,
+                                                     witnesses=[["seed", "seed", "seed"], ["seed2", "seed", "own"], ["seed", "seed2", "seed2"]],
+                                                     absent=[["seed", "onlyinto", "seed"], ["onlyinto", "onlyinto", "onlyinto"], ["own", "seed2", "onlyinto"]])], False,
                          extra_negs=["S: From<(Seed<0>, Seed<0>)>", "S: From<(Seed<0>, Seed<0>, u32)>", "S: From<(Seed<1>, Seed<0>, Seed<0>)>"]))
     if tier == "thorough":
-        out.append(prog_from("f_tuple2_forward", [V("tuple", C(2), "forward", witnesses=[["seed", "seed"], ["seed2", "own"], ["own", "seed2"]])], False,
+        out.append(prog_from("f_tuple2_forward", [V("tuple", C(2), "forward", witnesses=[["seed", "seed"], ["seed2", "own"], ["own", "seed2"]], absent=[["onlyinto", "seed"], ["seed", "onlyinto"]])], False,
                              extra_negs=["S: From<(Seed<1>, Seed<0>)>", "S: From<Seed<0>>"]))
         out.append(prog_from("f_named1_ty_own", [V("named", C(1), "types", [["own"], ["seed"]])], False, extra_negs=["S: From<Seed2<0>>"]))
         out.append(prog_from("f_named3_ty_same_split", [V("named", C(3, "same"), "types", [["seed2", "seed2", "seed"], ["seed", "seed", "seed2"]], split=True)],
@@ -1162,12 +1240,12 @@ def enum_programs(tier):
         extra_negs=["S: From<Conv<0>>", "S: From<(Conv<0>, Conv<0>)>", "S: From<(Seed<0>, Seed<0>)>"]))
     # explicit mode by forward only
     out.append(prog_from("e_explicit_forward", [
-        Variant("A", "tuple", I("u8")), Variant("B", "named", C(2, "same"), "forward", witnesses=[["seed", "seed"], ["own", "seed2"]]),
+        Variant("A", "tuple", I("u8")), Variant("B", "named", C(2, "same"), "forward", witnesses=[["seed", "seed"], ["own", "seed2"]], absent=[["onlyinto", "seed"], ["seed2", "onlyinto"]]),
         Variant("C", "tuple", I("u16", "u32", "u32")), Variant("D", "unit", [])], True,
         extra_negs=["S: From<(u8, u8)>", "S: From<(Seed<0>, u32)>"]))
     # mixture
     out.append(prog_from("e_mixed_attrs", [
-        Variant("A", "tuple", C(1), "forward", witnesses=[["seed"], ["seed2"], ["own"]]), Variant("B", "tuple", I("u32", "u32"), "from"),
+        Variant("A", "tuple", C(1), "forward", witnesses=[["seed"], ["seed2"], ["own"]], absent=[["onlyinto"]]), Variant("B", "tuple", I("u32", "u32"), "from"),
         Variant("C", "named", C(3, "same"), "types", [["seed", "seed", "seed2"]], split=True), Variant("D", "tuple", I("u8", "u8"), "skip"),
         Variant("E", "named", I("u16", "u8")), Variant("F", "tuple", [], "from")], True,
         extra_negs=["S: From<u8>", "S: From<(Conv<0>, Conv<0>, Conv<0>)>"]))
@@ -1184,7 +1262,8 @@ def enum_programs(tier):
                     if attr == "types":
                         v = Variant("X", sh, C(n, typing), "types", [["seed"] * n, (["seed2"] + ["own"] * (n - 1))], split=bool(c % 2))
                     elif attr == "forward":
-                        v = Variant("X", sh, C(n, typing), "forward", witnesses=[["seed"] * n, ["own"] * (n - 1) + ["seed2"]])
+                        v = Variant("X", sh, C(n, typing), "forward", witnesses=[["seed"] * n, ["own"] * (n - 1) + ["seed2"]],
+                                    absent=[["seed"] * (n - 1) + ["onlyinto"]])
                     else:
                         v = Variant("X", sh, field_tys(n, typing), attr)
                     sib = Variant("Y", "named" if sh == "tuple" else "tuple", I("u16", "u8", "u16")[:(n + 1 if 0 < n < 3 else 2)])
@@ -1209,7 +1288,7 @@ def family(tier, seed):
         enum_programs(tier) + generic_programs(tier)
     if INCLUDE_LISTED_TUPLE_SINGLE_FIELD:
         progs += listed_tuple_single_field_programs()
-    progs += listed_one_tuple_programs(tier) + enum_fieldless_annotated_programs(tier)
+    progs += listed_one_tuple_programs(tier) + enum_fieldless_annotated_programs(tier) + repeated_from_attr_programs(tier)
     progs.append(prog_into("i_named3_same_owned_ref_mut_skip010_rawkw", "named", field_tys(3, "same"), skip=[False, True, False],
                            sattr=kinds_attr(KINDS), names=["r#type", "r#in", "r#while"]))
     progs.append(prog_from("e_named_rawkw", [Variant("A", "named", [INT("u32"), INT("u32")], names=["r#type", "r#in"]),
